@@ -91,6 +91,111 @@ func (m *Machine) typeOfReflectLocked(rt reflect.Type) types.Type {
 	return out
 }
 
+// reflectTypeOf is the inverse of typeOfReflect for types the lifter has seen.
+func (m *Machine) reflectTypeOf(t types.Type) reflect.Type {
+	m.typeMu.Lock()
+	defer m.typeMu.Unlock()
+	for rt, tt := range m.typeCache {
+		if types.Identical(tt, t) {
+			return rt
+		}
+	}
+	return nil
+}
+
+// unlift stores the interpreter value v into the native location rv.
+func (fr *frame) unlift(v value, rv reflect.Value) {
+	if !rv.CanSet() {
+		rv = reflect.NewAt(rv.Type(), unsafe.Pointer(rv.UnsafeAddr())).Elem()
+	}
+	switch rv.Kind() {
+	case reflect.Bool:
+		b, ok := v.(bool)
+		if !ok {
+			panic(pathAbort{"unsupported", "unlift: symbolic bool in an AST node"})
+		}
+		rv.SetBool(b)
+	case reflect.Int, reflect.Int8, reflect.Int16, reflect.Int32, reflect.Int64:
+		n, ok := concreteInt(v)
+		if !ok {
+			panic(pathAbort{"unsupported", "unlift: symbolic integer in an AST node"})
+		}
+		rv.SetInt(n)
+	case reflect.Uint, reflect.Uint8, reflect.Uint16, reflect.Uint32, reflect.Uint64:
+		n, ok := concreteInt(v)
+		if !ok {
+			panic(pathAbort{"unsupported", "unlift: symbolic integer in an AST node"})
+		}
+		rv.SetUint(uint64(n))
+	case reflect.Float64, reflect.Float32:
+		f, ok := v.(float64)
+		if !ok {
+			panic(pathAbort{"unsupported", "unlift: symbolic float in an AST node"})
+		}
+		rv.SetFloat(f)
+	case reflect.String:
+		s, ok := v.(string)
+		if !ok {
+			panic(pathAbort{"unsupported", "unlift: symbolic string in an AST node"})
+		}
+		rv.SetString(s)
+	case reflect.Slice:
+		sl, ok := v.([]value)
+		if !ok || sl == nil {
+			return
+		}
+		out := reflect.MakeSlice(rv.Type(), len(sl), len(sl))
+		for i := range sl {
+			fr.unlift(sl[i], out.Index(i))
+		}
+		rv.Set(out)
+	case reflect.Ptr:
+		p, ok := v.(*value)
+		if !ok || p == nil {
+			return
+		}
+		if n, ok := fr.i.natives[p]; ok && reflect.TypeOf(n) == rv.Type() {
+			rv.Set(reflect.ValueOf(n))
+			return
+		}
+		np := reflect.New(rv.Type().Elem())
+		fr.unlift(*p, np.Elem())
+		rv.Set(np)
+	case reflect.Interface:
+		it, ok := v.(iface)
+		if !ok || it.t == nil {
+			return
+		}
+		rt := fr.i.m.reflectTypeOf(it.t)
+		if rt == nil {
+			panic(pathAbort{"unsupported", "unlift: no native type for " + it.t.String()})
+		}
+		e := reflect.New(rt).Elem()
+		fr.unlift(it.v, e)
+		rv.Set(e)
+	case reflect.Struct:
+		st, ok := v.(structure)
+		if !ok {
+			panic(pathAbort{"unsupported", "unlift: struct expected for " + rv.Type().String()})
+		}
+		for i := range st {
+			fr.unlift(st[i], rv.Field(i))
+		}
+	case reflect.Array:
+		ar, ok := v.(array)
+		if !ok {
+			return
+		}
+		for i := range ar {
+			fr.unlift(ar[i], rv.Index(i))
+		}
+	case reflect.Map, reflect.Func:
+		// left nil (the lifter only accepts nil/empty ones)
+	default:
+		panic(pathAbort{"unsupported", "unlift: kind " + rv.Kind().String()})
+	}
+}
+
 func (l *lifter) lift(rv reflect.Value) value {
 	switch rv.Kind() {
 	case reflect.Bool:
@@ -248,7 +353,16 @@ func init() {
 				}
 			}
 		}
-		panic(pathAbort{"unsupported", "sqlparser.String of a node that was not produced by Parse"})
+		// a node value built or copied by the library: lower it back to a
+		// native node through reflection (the inverse of the lifter)
+		if rt := fr.i.m.reflectTypeOf(it.t); rt != nil {
+			rv := reflect.New(rt).Elem()
+			fr.unlift(it.v, rv)
+			if node, ok := rv.Interface().(sqlparser.SQLNode); ok {
+				return sqlparser.String(node)
+			}
+		}
+		panic(pathAbort{"unsupported", "sqlparser.String of a node that was not produced by Parse (" + it.t.String() + ")"})
 	}
 }
 
